@@ -2,9 +2,9 @@ SPECIFICATION Spec
 CONSTANTS
   Channels = {0, 1}
   Mode = "perm"
-  NTok <- MC_PermQ_N
-  TokAt <- MC_PermQ_At
-  PolSeq <- MC_Pol6x2
+  NTok <- MC_PermS_N
+  TokAt <- MC_PermS_At
+  PolSeq <- MC_Pol11x2
   RegisterFirst = FALSE
   MinN = 0
   MaxN = 3
